@@ -474,3 +474,25 @@ Definition toy_mask : list bool := repeat true 20.
 (* out: container(6), spaces(20*6) *)
 Definition bin_pack_toy_io (l : list Z) : list Z := enc_space toy_container ++ concat (map enc_space toy_spaces).
 (* @export bin_pack_toy_io *)
+
+(* ---- CSVGenerator._generate_list_of_items: every row (x_len, y_len, z_len, quantity) gives `quantity` copies of its item, in
+   file order (quantity * [Item]: a non-positive quantity gives none); items_mask is all True, the reset state is
+   init_state on these items.  The example of the class docstring as a literal instance. ---- *)
+Definition csv_items (rows : list (item * Z)) : list item :=
+  flat_map (fun r : item * Z => repeat (fst r) (Z.to_nat (snd r))) rows.
+Definition csv_doc_rows : list (item * Z) := [(mkIt 1080 760 300, 5); (mkIt 1100 430 250, 3)].
+Definition dec_row (l : list Z) : (item * Z) * list Z :=
+  let (i, l) := dec_item l in let (q, l) := take1 l in ((i, q), l).
+(* in: nrows, (x_len, y_len, z_len, quantity)* -> out: number of items, items (n*3) *)
+Definition bin_pack_csv_io (l : list Z) : list Z :=
+  let (k, l) := take1 l in
+  let (rows, _) := dec_many dec_row (Z.to_nat k) l in
+  let its := csv_items rows in
+  zlen its :: concat (map (fun i : item => [xl i; yl i; zl i]) its).
+(* @export bin_pack_csv_io *)
+(* the literal docstring instance: out: nrows, rows (x, y, z, quantity)*, then as bin_pack_csv_io on these rows *)
+Definition bin_pack_csvdoc_io (l : list Z) : list Z :=
+  let its := csv_items csv_doc_rows in
+  zlen csv_doc_rows :: concat (map (fun r : item * Z => [xl (fst r); yl (fst r); zl (fst r); snd r]) csv_doc_rows)
+  ++ zlen its :: concat (map (fun i : item => [xl i; yl i; zl i]) its).
+(* @export bin_pack_csvdoc_io *)
